@@ -97,6 +97,9 @@ inductive CExpr (τ : Type) where
   | tracked2 (x : Name) (op : Nat) (y : Name)  -- `tracked_x <op> tracked_y`
   | resLevel (r : Name) (op : Nat) (amounts : List Int)   -- `resources <op> {..}`
   | ref (n : Name)                  -- a condition object bound to a program variable earlier (`defCond`)
+  | delay (d : τ)                   -- `time + d` kept as an object (a `Delay` notification: every wait counts from its own start)
+  | andOp (a b : CExpr τ)           -- `a & b` through the operators (`Condition.__and__` / `All.__and__`: an `All` operand is spread)
+  | orOp (a b : CExpr τ)            -- `a | b` through the operators (`Condition.__or__` / `Any.__or__`)
   deriving Inhabited
 
 /-- what `until(..)` listens to -/
